@@ -10,9 +10,17 @@ package main
 //   default; no fallthrough/break); x := e, x = e, x op= e, x++ / x--; `var x T [= e]`;
 //   a, b := f(...) for a translated total function; h[i] = e / h[i] op= e on a [2]T array variable or
 //   pointer receiver (i constant); assignments to package-level variables; panic(...).
-// No loops, no goto/labels, no defer/go/select, no closures, no struct fields, no slices/maps/strings.
+// No loops, no goto/labels, no defer/go/select, no closures, no slices/maps/strings, no struct values.
 //
-// Shape of the generated function  f g_r1 .. g_rk [recv] p1 .. pn :
+// Struct receivers.  A method whose receiver is a struct (or a pointer to one) is in the subset when the
+// body only READS scalar fields of the receiver (r.f.g of sized integer / bool type, reached through
+// struct-typed fields) or takes len(r.f) of a slice/map/string field.  The receiver is replaced by one
+// parameter per distinct path read: r.f.g -> r_f_g : N / Z / bool, len(r.f) -> len_r_f : Z (a Go `int`,
+// always >= 0), ordered by field declaration order of the struct types.  A pointer receiver is assumed
+// non-nil (a nil receiver would panic at the first field read).  Such methods can be selected for
+// translation but not called from other translated code.
+//
+// Shape of the generated function  f g_r1 .. g_rk [recv | r_f1 .. r_fm] p1 .. pn :
 //   g_ri   package-level variables the body may read before assigning them (declaration order);
 //   result = the Go results (error results dropped), then the updated receiver if the method assigns
 //            through its pointer receiver, then the tuple of package-level variables the body assigns
@@ -43,15 +51,16 @@ func (e *ggEnv) clone() *ggEnv {
 
 // ggFnOut is what callers need to know about a translated function.
 type ggFnOut struct {
-	name     string
-	partial  bool
-	implicit []*types.Var // package variables passed as leading parameters
-	hasRecv  bool
-	recvMut  bool
-	assigned []*types.Var
-	params   []ggRep
-	results  []ggRep
-	text     string
+	name       string
+	partial    bool
+	implicit   []*types.Var // package variables passed as leading parameters
+	hasRecv    bool
+	recvMut    bool
+	recvStruct bool // struct receiver replaced by scalar field parameters
+	assigned   []*types.Var
+	params     []ggRep
+	results    []ggRep
+	text       string
 }
 
 type ggFn struct {
@@ -64,6 +73,8 @@ type ggFn struct {
 	recv        *types.Var
 	recvPtr     bool
 	recvMut     bool
+	recvStruct  bool
+	recvFields  map[string]*ggRecvField
 	assigned    []*types.Var
 	readGlobals map[*types.Var]bool
 	results     []ggRep
@@ -162,7 +173,7 @@ func (g *ggGen) translate(fo *types.Func, from token.Pos) *ggFnOut {
 	var out *ggFnOut
 	for _, partial := range []bool{false, true} {
 		f := &ggFn{g: g, obj: fo, decl: fd, partial: partial, names: map[*types.Var]string{}, used: map[string]bool{},
-			readGlobals: map[*types.Var]bool{}}
+			readGlobals: map[*types.Var]bool{}, recvFields: map[string]*ggRecvField{}}
 		out = f.run()
 		if out != nil {
 			break
@@ -201,10 +212,6 @@ func (f *ggFn) run() (out *ggFnOut) {
 	f.used[o.name] = true
 	if r := sig.Recv(); r != nil {
 		_, f.recvPtr = r.Type().Underlying().(*types.Pointer)
-		rep := g.repOf(r.Type(), fd.Recv.Pos())
-		if rep.k != ggArr2 {
-			g.fail(fd.Recv.Pos(), "receiver of type %s", r.Type())
-		}
 		// the declared receiver object (may be unnamed)
 		if len(fd.Recv.List[0].Names) == 1 {
 			f.recv, _ = g.info.Defs[fd.Recv.List[0].Names[0]].(*types.Var)
@@ -212,7 +219,20 @@ func (f *ggFn) run() (out *ggFnOut) {
 		if f.recv == nil {
 			f.recv = r
 		}
-		pars = append(pars, par{f.nameOf(f.recv, fd.Recv.Pos()), rep})
+		base := r.Type()
+		if p, ok := base.Underlying().(*types.Pointer); ok {
+			base = p.Elem()
+		}
+		if _, isStruct := base.Underlying().(*types.Struct); isStruct {
+			// parameters r_f_g are collected while the body is translated (recvField)
+			f.recvStruct, o.recvStruct = true, true
+		} else {
+			rep := g.repOf(r.Type(), fd.Recv.Pos())
+			if rep.k != ggArr2 {
+				g.fail(fd.Recv.Pos(), "receiver of type %s", r.Type())
+			}
+			pars = append(pars, par{f.nameOf(f.recv, fd.Recv.Pos()), rep})
+		}
 		o.hasRecv = true
 	}
 	for _, fl := range fd.Type.Params.List {
@@ -308,10 +328,24 @@ func (f *ggFn) run() (out *ggFnOut) {
 	if f.partial {
 		sb.WriteString("; None = panic / non-nil error / undefined conversion")
 	}
+	rfs := f.recvFieldList()
+	if f.recvStruct {
+		var ps []string
+		for _, rf := range rfs {
+			ps = append(ps, rf.name+" = "+rf.text)
+		}
+		if len(ps) == 0 {
+			ps = []string{"no field is read"}
+		}
+		fmt.Fprintf(&sb, "\n   struct receiver, read only through: %s", strings.Join(ps, ", "))
+	}
 	sb.WriteString(" *)\n")
 	fmt.Fprintf(&sb, "Definition %s", o.name)
 	for _, v := range o.implicit {
 		fmt.Fprintf(&sb, " (g_%s : %s)", v.Name(), ggCoqType(g.repOf(v.Type(), fd.Pos())))
+	}
+	for _, rf := range rfs {
+		fmt.Fprintf(&sb, " (%s : %s)", rf.name, ggCoqType(rf.rep))
 	}
 	for _, p := range pars {
 		fmt.Fprintf(&sb, " (%s : %s)", p.name, ggCoqType(p.rep))
@@ -413,6 +447,10 @@ func (f *ggFn) scanEffects() {
 				if v == f.recv && f.recvPtr {
 					g.fail(l.Pos(), "assignment to the pointer receiver itself")
 				}
+			}
+		case *ast.SelectorExpr:
+			if _, _, ok := f.recvPath(l); ok {
+				g.fail(l.Pos(), "assignment to the receiver field %s (struct receivers are read-only in the subset)", g.text(l.Pos(), l.End()))
 			}
 		case *ast.IndexExpr:
 			if id, ok := l.X.(*ast.Ident); ok {
